@@ -88,7 +88,7 @@ SrcArgs(args, i) ==
        \o SrcArgs(args, i + 1)
 RECURSIVE SrcCases(_, _)
 SrcCases(cs, i) == IF i > Len(cs) THEN <<>>
-                   ELSE <<"|">> \o cs[i].key \o <<"=">> \o Src(cs[i].val) \o SrcCases(cs, i + 1)
+                   ELSE <<"|">> \o cs[i].key \o (IF IsFT(cs[i]) THEN <<>> ELSE <<"=">> \o Src(cs[i].val)) \o SrcCases(cs, i + 1)
 RECURSIVE SrcJoin(_, _)
 SrcJoin(args, i) == IF i > Len(args) THEN <<>> ELSE (IF i > 1 THEN <<"|">> ELSE <<>>) \o Src(args[i]) \o SrcJoin(args, i + 1)
 SrcItem(it) ==
@@ -157,7 +157,9 @@ ExpSwitch(v, i, it, f, st, X) ==
   IF i > Len(it.cases)
   THEN IF it.hasDflt THEN LET e == Exp(it.dflt, f, TRUE, st, X) IN R(Trim(e.out), e.st) ELSE R(<<>>, st)
   ELSE IF Trim(it.cases[i].key) = v
-       THEN LET e == Exp(it.cases[i].val, f, TRUE, st, X) IN R(Trim(e.out), e.st)
+       THEN LET j == NextValued(it.cases, i) IN
+            IF j = 0 THEN R(<<>>, st)
+            ELSE LET e == Exp(it.cases[j].val, f, TRUE, st, X) IN R(Trim(e.out), e.st)
        ELSE ExpSwitch(v, i + 1, it, f, st, X)
 
 \* a parser-function call: the name label is pushed by expand_recurse (1472) and
